@@ -446,6 +446,20 @@ func rulePathSpelling(c *Ctx) {
 				switch q {
 				case "path/filepath.Clean", "path/filepath.Join", "path/filepath.Abs":
 					n++
+				case "net/url.QueryUnescape":
+					// form decoding is not path decoding: it also turns a literal '+' into a blank
+					fromURI := false
+					for _, a := range call.Common().Args {
+						for w := range backSlice(a) {
+							if ts := types.TypeString(w.Type(), nil); strings.HasSuffix(ts, "protocol.DocumentURI") || strings.HasSuffix(ts, "uri.URI") || strings.HasSuffix(ts, "protocol.URI") {
+								fromURI = true
+							}
+						}
+					}
+					if fromURI {
+						c.finding("P-SPELL", funcName(f), "a document URI is decoded as a path, not as a form value", ins.Pos(),
+							"net/url.QueryUnescape is applied to text taken from a document URI: besides %XX escapes it turns '+' into a blank, so a document whose path contains '+' is filed under a path that does not exist - its includes resolve against the wrong directory, the workspace does not recognise it, locations for it carry another name (url.PathUnescape or the uri package decode paths)")
+					}
 				case "path/filepath.EvalSymlinks", "os.Readlink":
 					c.finding("P-SPELL", funcName(f), "no path is resolved through symbolic links", ins.Pos(),
 						q+" gives a file a second name: the rest of the module (include loader, cache invalidation, workspace index, document URIs) identifies files by the spelling produced by filepath.Clean/Join/Abs, so a file reached both ways is loaded twice, its cycles are reported late or not at all, and invalidations and locations under the editor's name miss it")
